@@ -750,6 +750,13 @@ ChildCloseX(h) ==
   /\ hist' = Append(hist, EnvRec("cclosex", h, [x |-> 1]))
   /\ UNCHANGED <<life, stv, opt, pend, buf, cnt, now, fr, ncalls>>
 
+\* the child is stopped (job control, a debugger); it is continued before whatever it does next. A stopped child has not ended:
+\* nothing in the contract changes, only the operating system now has something else to tell about it
+ChildStop(h) ==
+  /\ EnvOK /\ ch[h].alive = "run" /\ ch[h].self
+  /\ hist' = Append(hist, EnvRec("cstop", h, [x |-> 1]))
+  /\ UNCHANGED <<life, stv, opt, pend, buf, cnt, now, fr, ncalls, ch>>
+
 ChildRead(h, n) ==
   /\ EnvOK /\ ch[h].alive = "run" /\ ch[h].fd[1] = "pi" /\ n > 0 /\ buf[h].i >= n
   /\ buf' = [buf EXCEPT ![h].i = @ - n]
